@@ -209,12 +209,12 @@ Definition cp_step (maximumTtl : Z) (st : cp_state) (ev : event) : cp_state * ou
   | EvEvict k => (mkState (st_clk st) (remove k (st_map st)), OEvicted)
   end.
 
-Fixpoint run (maximumTtl : Z) (st : cp_state) (evs : list event) : cp_state * list out :=
+Fixpoint cp_run (maximumTtl : Z) (st : cp_state) (evs : list event) : cp_state * list out :=
   match evs with
   | [] => (st, [])
   | ev :: evs' =>
     let '(st1, o) := cp_step maximumTtl st ev in
-    let '(st2, os) := run maximumTtl st1 evs' in
+    let '(st2, os) := cp_run maximumTtl st1 evs' in
     (st2, o :: os)
   end.
 
